@@ -1,7 +1,7 @@
 /-
   Props/C06 — sequencer bonds are fully backed and leave only by refund, slash or reward.
 -/
-import DymVerif.Lemmas.CoreCustody3
+import DymVerif.Lemmas.CoreCustody4
 namespace DymVerif.C06
 open DymVerif DymVerif.Core
 
@@ -115,6 +115,215 @@ theorem punish_reward_at_most_half (tokens : Nat) :
     rw [Int.tdiv_eq_ediv_of_nonneg (by omega)]
     omega
   rw [h]; omega
+
+-- ================================================================================================
+-- "A sequencer's bond decreases only by …"
+-- ================================================================================================
+
+/-- the three ways a bond can go down by `d` in one step `s —o→ s'` (see `bond_decreases_only_by`) -/
+def BondDecreaseKind (s s' : St) (o : Op) (a : Addr) (d : Nat) : Prop :=
+    ((o = .unbond a ∨ ∃ amt, o = .bondDec a amt) ∧
+      getBal s'.bal a = getBal s.bal a + d ∧ s'.modBal + d = s.modBal ∧
+      s'.burned = s.burned ∧ ∀ b, b ≠ a → getBal s'.bal b = getBal s.bal b) ∨
+    (∃ au ra hh rev rw paid, o = .fraud au ra hh rev (some a) rw ∧ paid * 2 ≤ d ∧
+      s'.modBal + d = s.modBal ∧ s'.burned = s.burned + (d - paid) ∧
+      ∀ b, getBal s'.bal b = getBal s.bal b + (if rw = some b then paid else 0)) ∨
+    (∃ fails, o = .end_ fails ∧ s'.bal = s.bal ∧ s'.modBal + s'.burned = s.modBal + s.burned ∧
+      d ≤ s'.burned - s.burned)
+
+/-- **bond_decreases_only_by** — for EVERY state `s`, op `o` and address `a`: if the step succeeds and the bond
+    recorded for `a` is strictly smaller afterwards (`d` = the decrease), then the op is one of
+
+    1. a withdrawal requested by `a` itself (`MsgUnbond` / `MsgDecreaseBond` signed by `a`): `a`'s own bank
+       balance grew by exactly `d`, the module account shrank by exactly `d`, nothing was burned and nobody
+       else's balance moved;
+    2. a fraud proposal naming `a` as the sequencer to punish: the module account shrank by exactly `d`,
+       at most half of `d` (`paid`, truncated) went to the named rewardee — to nobody if none is named — and
+       the rest `d - paid` was burned; no other balance moved;
+    3. a block end (the liveness slash): no bank balance changed at all, whatever left the module account was
+       burned, and `d` is covered by the burn.
+
+    Every other op — and every op of kinds 1/2 naming another address — leaves `a`'s bond at least as
+    high as it was (`apply_noDec`, `Withdrawn.others`, `Punished.others`). -/
+theorem bond_decreases_only_by (s s' : St) (o : Op) (a : Addr) (q q' : Seq)
+    (h : apply s o = .ok s') (hq : getSeq s a = some q) (hq' : getSeq s' a = some q') (hlt : q'.tokens < q.tokens) :
+    BondDecreaseKind s s' o a (q.tokens - q'.tokens) := by
+  unfold BondDecreaseKind
+  -- a withdrawal by `a'`
+  have wd : ∀ a', Withdrawn s s' a' → a' = a ∧
+      getBal s'.bal a = getBal s.bal a + (q.tokens - q'.tokens) ∧ s'.modBal + (q.tokens - q'.tokens) = s.modBal ∧
+      s'.burned = s.burned ∧ ∀ b, b ≠ a → getBal s'.bal b = getBal s.bal b := by
+    intro a' w
+    by_cases e : a' = a
+    · subst e
+      obtain ⟨q0, q1, h0, h1, _, hb, hm⟩ := w.ex
+      rw [hq] at h0; cases h0
+      rw [hq'] at h1; cases h1
+      exact ⟨rfl, hb, hm, w.burned, w.otherBal⟩
+    · exfalso
+      have := w.others a (Ne.symm e)
+      rw [hq, hq'] at this; cases this; omega
+  by_cases c1 : ∃ a' amt, o = .bondDec a' amt
+  · obtain ⟨a', amt, e⟩ := c1
+    subst e
+    obtain ⟨e, r⟩ := wd a' (decreaseBond_withdrawn h)
+    subst e
+    exact Or.inl ⟨Or.inr ⟨amt, rfl⟩, r⟩
+  by_cases c2 : ∃ a', o = .unbond a'
+  · obtain ⟨a', e⟩ := c2
+    subst e
+    obtain ⟨e, r⟩ := wd a' (unbond_withdrawn h)
+    subst e
+    exact Or.inl ⟨Or.inl rfl, r⟩
+  by_cases c3 : ∃ au ra hh rev a' rw, o = .fraud au ra hh rev (some a') rw
+  · obtain ⟨au, ra, hh, rev, a', rw, e⟩ := c3
+    subst e
+    rcases fraud_cases (show fraud s au ra hh rev (some a') rw = .ok s' from h) with ⟨hn, _⟩ | ⟨a'', hp, pp⟩
+    · cases hn
+    · cases hp
+      by_cases e : a' = a
+      · subst e
+        obtain ⟨q0, q1, paid, h0, h1, _, _, hpl, hm, hbn, hbal⟩ := pp.ex
+        rw [hq] at h0; cases h0
+        rw [hq'] at h1; cases h1
+        exact Or.inr (Or.inl ⟨au, ra, hh, rev, rw, paid, rfl, hpl, hm, hbn, hbal⟩)
+      · exfalso
+        have := pp.others a (Ne.symm e)
+        rw [hq, hq'] at this
+        have : q'.tokens = q.tokens := by simpa using this
+        omega
+  by_cases c4 : ∃ f, o = .end_ f
+  · obtain ⟨f, e⟩ := c4
+    subst e
+    simp only [apply] at h
+    injection h with h; subst h
+    have b := endBlock_burnt s f
+    obtain ⟨q0, h0, _, hc⟩ := b.tok a q' hq'
+    rw [hq] at h0; cases h0
+    exact Or.inr (Or.inr ⟨f, rfl, b.bal, b.conserve, by have := b.mono; omega⟩)
+  · exfalso
+    refine (apply_noDec h ?_ ?_ ?_ ?_).not_lt hq hq' hlt
+    · intro a' amt e; exact c1 ⟨a', amt, e⟩
+    · intro a' e; exact c2 ⟨a', e⟩
+    · intro au ra hh rev a' rw e; exact c3 ⟨au, ra, hh, rev, a', rw, e⟩
+    · intro f e; exact c4 ⟨f, e⟩
+
+/-- a sequencer record is never deleted by a step, so "the bond of `a` before / after" is always defined
+    once `a` is a sequencer -/
+theorem sequencer_record_persists (s s' : St) (o : Op) (a : Addr) (q : Seq)
+    (h : apply s o = .ok s') (hq : getSeq s a = some q) : ∃ q', getSeq s' a = some q' := by
+  by_cases c1 : ∃ a' amt, o = .bondDec a' amt
+  · obtain ⟨a', amt, e⟩ := c1
+    subst e
+    have w := decreaseBond_withdrawn h
+    by_cases e : a' = a
+    · subst e; obtain ⟨_, q1, _, h1, _⟩ := w.ex; exact ⟨q1, h1⟩
+    · exact ⟨q, by rw [w.others a (Ne.symm e)]; exact hq⟩
+  by_cases c2 : ∃ a', o = .unbond a'
+  · obtain ⟨a', e⟩ := c2
+    subst e
+    have w := unbond_withdrawn h
+    by_cases e : a' = a
+    · subst e; obtain ⟨_, q1, _, h1, _⟩ := w.ex; exact ⟨q1, h1⟩
+    · exact ⟨q, by rw [w.others a (Ne.symm e)]; exact hq⟩
+  by_cases c3 : ∃ au ra hh rev a' rw, o = .fraud au ra hh rev (some a') rw
+  · obtain ⟨au, ra, hh, rev, a', rw, e⟩ := c3
+    subst e
+    rcases fraud_cases (show fraud s au ra hh rev (some a') rw = .ok s' from h) with ⟨hn, _⟩ | ⟨a'', hp, pp⟩
+    · cases hn
+    · cases hp
+      by_cases e : a' = a
+      · subst e; obtain ⟨_, q1, _, _, h1, _⟩ := pp.ex; exact ⟨q1, h1⟩
+      · have := pp.others a (Ne.symm e)
+        rw [hq] at this
+        cases hx : getSeq s' a with
+        | none => rw [hx] at this; cases this
+        | some q1 => exact ⟨q1, rfl⟩
+  by_cases c4 : ∃ f, o = .end_ f
+  · obtain ⟨f, e⟩ := c4
+    subst e
+    simp only [apply] at h
+    injection h with h; subst h
+    -- block end rewrites records in place (`setSeq`): custody of the address list
+    have hadd : ∀ (x : St) (ra : Nat), (handleLivenessEvent x ra).seqs.map (·.addr) = x.seqs.map (·.addr) := by
+      intro x ra
+      unfold handleLivenessEvent
+      split
+      · rfl
+      · split
+        · rfl
+        · rename_i r _ s1 hs1
+          split
+          · rfl
+          · unfold scheduleEvent
+            show s1.seqs.map (·.addr) = _
+            unfold slashLiveness at hs1
+            split at hs1
+            · injection hs1 with hs1; subst hs1; rfl
+            · split at hs1
+              · injection hs1 with hs1; subst hs1; rfl
+              · split at hs1
+                · cases hs1
+                · rename_i s2 q2 hsl
+                  injection hs1 with hs1; subst hs1
+                  exact (addrs_replace s2.seqs { q2 with dishonor := q2.dishonor + s2.p.dishonorL }).trans
+                    (congrArg (List.map (·.addr)) (slash_spec hsl).1)
+    have hall : (endBlock s f).seqs.map (·.addr) = s.seqs.map (·.addr) := by
+      unfold endBlock checkLiveness
+      apply foldl_inv (fun x : St => x.seqs.map (·.addr) = s.seqs.map (·.addr))
+      · unfold finalizeRollappStates
+        split
+        · rfl
+        · rw [(finalizeAll_seqs _ _ _ _).1]
+      · intro b e hb; rw [hadd b e.2]; exact hb
+    have hmem : a ∈ (endBlock s f).seqs.map (·.addr) := by
+      rw [hall]; exact List.mem_map.2 ⟨q, getSeq_mem hq, getSeq_addr hq⟩
+    obtain ⟨q1, hq1, hq1a⟩ := List.mem_map.1 hmem
+    cases hx : getSeq (endBlock s f) a with
+    | some q2 => exact ⟨q2, rfl⟩
+    | none => exact absurd hq1a (getSeq_none hx q1 hq1)
+  · obtain ⟨q', hq', _⟩ := (apply_noDec h (fun a' amt e => c1 ⟨a', amt, e⟩) (fun a' e => c2 ⟨a', e⟩)
+      (fun au ra hh rev a' rw e => c3 ⟨au, ra, hh, rev, a', rw, e⟩) (fun f e => c4 ⟨f, e⟩)) a q hq
+    exact ⟨q', hq'⟩
+
+/-- **trace form**: along every run from genesis, a bond that is lower after the next op than before it was
+    lowered by one of the three kinds of `bond_decreases_only_by`, with that accounting — in particular a
+    rejected op lowers nothing. -/
+theorem bond_decreases_only_by_run (p : Params) (ops : List Op) (o : Op) (a : Addr) (q q' : Seq)
+    (hq : getSeq (run p ops) a = some q) (hq' : getSeq (run p (ops ++ [o])) a = some q') (hlt : q'.tokens < q.tokens) :
+    BondDecreaseKind (run p ops) (run p (ops ++ [o])) o a (q.tokens - q'.tokens) := by
+  have hr : run p (ops ++ [o]) = (step (run p ops) o).1 := by
+    unfold run; rw [List.foldl_append]; rfl
+  have hap : apply (run p ops) o = .ok (run p (ops ++ [o])) := by
+    rw [hr] at hq' ⊢
+    unfold step at hq' ⊢
+    cases h : apply (run p ops) o with
+    | ok s' => rfl
+    | error e =>
+      exfalso
+      rw [h] at hq'
+      simp only at hq'
+      rw [hq] at hq'; cases hq'; omega
+  exact bond_decreases_only_by _ _ o a q q' hap hq hq' hlt
+
+-- non-vacuity: each of the three kinds occurs, with the stated accounting
+def exLive : Params := { exParams with lsBlocks := 1, lsInterval := 1, lsAbs := 3 }
+def exPre : List Op := [.createRollapp 0 9 10, .fund 1 100, .fund 2 100, .createSeq 1 0 10 true, .createSeq 2 0 15 true]
+def exBD (h : Nat) : BD := { height := h, hasTs := true, drs := 1, rootOk := true }
+def exUpd : Op := .update { ra := 0, sender := 1, start := 1, num := 2, rev := 0, last := false, bds := [exBD 1, exBD 2] }
+
+/-- a partial withdrawal of the non-proposer a2: bond 15 → 12, bank 85 → 88, module account 25 → 22 -/
+example : ((getSeq (run exLive exPre) 2).map (·.tokens), (getSeq (run exLive (exPre ++ [.bondDec 2 3])) 2).map (·.tokens),
+    getBal (run exLive exPre).bal 2, getBal (run exLive (exPre ++ [.bondDec 2 3])).bal 2,
+    (run exLive exPre).modBal, (run exLive (exPre ++ [.bondDec 2 3])).modBal) = (some 15, some 12, 85, 88, 25, 22) := by decide
+/-- two block ends with liveness slashes of 3 each on the proposer a1: bond 10 → 4, 6 burned, balances untouched -/
+example : ((getSeq (run exLive (exPre ++ [.begin_ 1, .end_ [], .begin_ 1, .end_ []])) 1).map (·.tokens),
+    (run exLive (exPre ++ [.begin_ 1, .end_ [], .begin_ 1, .end_ []])).burned,
+    (run exLive (exPre ++ [.begin_ 1, .end_ [], .begin_ 1, .end_ []])).bal == (run exLive exPre).bal) = (some 4, 6, true) := by decide
+/-- a fraud proposal punishing a1 with rewardee a7: bond 10 → 0, 5 paid to a7, 5 burned -/
+example : ((getSeq (run exLive (exPre ++ [exUpd, .bridge 0 1, .fraud true 0 2 0 (some 1) (some 7)])) 1).map (·.tokens),
+    getBal (run exLive (exPre ++ [exUpd, .bridge 0 1, .fraud true 0 2 0 (some 1) (some 7)])).bal 7,
+    (run exLive (exPre ++ [exUpd, .bridge 0 1, .fraud true 0 2 0 (some 1) (some 7)])).burned) = (some 0, 5, 5) := by decide
 
 -- non-vacuity: a concrete run with a bond, an increase and a liveness-free block keeps custody
 example : (run C06ex.1 C06ex.2).modBal = 30 ∧ ((run C06ex.1 C06ex.2).seqs.map (·.tokens)).sum = 30 := by decide
